@@ -100,6 +100,7 @@ func (bp BundlePart) replaceBundle(b bpv7.Bundle) error {
 		_ = os.Remove(tmpFilename)
 		return err
 	}
+	verifPoint("replace:tmp-written")
 
 	return os.Rename(tmpFilename, bp.Filename)
 }
